@@ -130,6 +130,8 @@ def special_cases():
     S.append(('pipeline-ending-in-builtin-inside', 'alias q=r ; vh-argv "$(vh-emit a | alias)"', {'a': b'zz\n'}, [["alias q='r'"]], 1))
     S.append(('pipeline-ending-in-builtin-inside-backquote', 'alias q=r ; vh-argv "h`vh-emit a | alias`t"', {'a': b'zz\n'}, [["halias q='r't"]], 1))
     S.append(('pipeline-starting-with-builtin-inside', 'alias q=r ; vh-argv "$(alias | vh-io x)"', {}, [['out:x']], 0))
+    S.append(('braces-written-inside', 'vh-argv "$(printf \'{a,b}\')" $(printf \'{c,d}\')', {}, [['{a,b}', '{c,d}']], 0))
+    S.append(('range-in-output', 'vh-argv "$(vh-emit a)" `vh-emit a`', {'a': b'{1..3}\n'}, [['{1..3}', '{1..3}']], 2))
     S.append(('failing-inside', 'vh-argv "$(vh-emit a 3)"', {'a': b'out\n'}, [['out']], 1))
     S.append(('notfound-inside', 'vh-argv "h$(vh-nosuchcmd)t"', {}, [['ht']], 0))
     S.append(('invalid-inside', 'vh-argv "h$(vh-emit a >)t"', {'a': b'zz\n'}, [['ht']], 0))
